@@ -10,13 +10,16 @@ for one parser object parsing the list forwards and then backwards, for a fresh 
 Compiler.parser.parse and for rzilcompiler.Parser.parse_single.
 
 A mismatch is attributed to a recorded finding only if the Lark tree is EXACTLY what the finding's
-rule predicts (RULES below: the reference parse of a rule-transformed text / AST equals the Lark tree);
-any other mis-parse of the same construct is a VIOLATION.
+rule predicts: every rule is a transformation of the text (K_PTR, K_KWSPLIT, K_INCSPLIT), of the choice
+of else binding (K_ELSE) or of the reference AST (K_ARGLESS, K_KWID, K_JUMPELSE, K_PAIR) such that the
+reference parse of the transformed input equals the Lark tree (explain()).  Any other mis-parse of the same
+construct is a VIOLATION.  Proposed known-finding entries: vf/props/c17.findings.json.
 
 Outside the dialect on purpose (never generated; if met they would be reported): top-level
 declarations without braces (fbody: stmt*), integer suffixes other than LL ULL U u ull ll, octal and
-character literals, brace initialisers in declarations, a statement-expression whose last item is not
-an expression statement, `a & &b`, strings that are not C (e.g. `a--b`).
+character literals, brace initialisers in declarations, declarations without a type specifier and struct /
+union / enum types, calls through a parenthesised callee `(f)(x)` (sub_routine: identifier "(" ..), a
+statement-expression whose last item is not an expression statement, `a & &b`, strings that are not C (e.g. `a--b`).
 """
 import itertools
 import json
@@ -40,6 +43,7 @@ K_KWID = "KF-C17-keyword-read-as-identifier"
 K_KWSPLIT = "KF-C17-keyword-prefix-splits-identifier"
 K_INCSPLIT = "KF-C17-incdec-read-as-two-operators"
 K_ELSE = "KF-C17-dangling-else-binds-outermost-if"
+K_JUMPELSE = "KF-C17-jump-before-else-is-sub-routine"
 
 # ---------------------------------------------------------------------------------------
 # (A) the string space
@@ -83,7 +87,7 @@ def fam_prefix(tier):
         for o2 in BINOPS:
             if tier != "thorough" and not adjacent(o1, o2):
                 continue
-            for p in PREFIX if tier == "thorough" else ["-", "(int32_t)"]:
+            for p in ["-", "!", "(int32_t)", "(uint8_t)"] if tier == "thorough" else ["-"]:
                 out.append(("prefix-pair", W("%sa %s b %s c" % (p, o1, o2))))
                 out.append(("prefix-pair", W("a %s %sb %s c" % (o1, p, o2))))
                 out.append(("prefix-pair", W("a %s b %s %sc" % (o1, o2, p))))
@@ -167,7 +171,7 @@ def fam_assign(tier):
 
 def fam_cast(tier):
     out = []
-    for T in CAST_TYPES:
+    for T in CAST_TYPES if tier == "thorough" else CAST_TYPES[:3] + CAST_TYPES[6:9]:
         forms = [
             "(%s)x", "(%s)+y", "(%s)-x", "(%s)(x)", "(%s)(x)+y", "(%s)x+y", "(%s)(x+y)", "((%s)x)", "(%s)~x", "(%s)!x", "(%s)x++",
             "(%s)x * y", "(%s)x << 2", "-(%s)x", "~(%s)x", "(%s)(x) * (y)", "(%s)(x, y)", "(%s)f(x)", "(%s)x ? y : z", "(%s)(uint16_t)x", "sizeof(%s)", "sizeof(%s) + 1",
@@ -281,7 +285,7 @@ def nest_text(kinds, variant):
 def fam_nest(tier):
     out = []
     for d in range(1, 7):
-        if tier == "thorough" or d <= 4:
+        if tier == "thorough" or d <= 3:
             kss = ["".join(k) for k in itertools.product("BE", repeat=d)]
         else:
             kss = ["B" * d, "E" * d, ("BE" * d)[:d], ("EB" * d)[:d]]
@@ -309,7 +313,7 @@ def fam_loops(tier):
     for i in inits:
         for c in conds:
             for s in steps:
-                for b in bodies if tier == "thorough" else bodies[:2]:
+                for b in bodies if tier == "thorough" else bodies[:1]:
                     out.append(("for-header", "{ for (%s; %s; %s) %s }" % (i, c, s, b)))
     for b in bodies[2:]:
         out.append(("for-header", "{ for (;;) %s }" % b))
@@ -324,7 +328,7 @@ def fam_loops(tier):
 
 def fam_decl(tier):
     out = []
-    for T in DECL_TYPES:
+    for T in DECL_TYPES if tier == "thorough" else DECL_TYPES[::2]:
         for d in ["x", "x = 1", "x = a + b", "x = (int32_t)a", "x, y", "x = 1, y", "x, y = 2", "x = a ? b : c", "x = RsV", "x = f(a, b)", "x = ({ a; b; })"]:
             out.append(("declaration", "{ %s %s; }" % (T, d)))
     out += [("declaration", t) for t in ["{ int32_t x; x = 1; }", "{ int32_t x; int32_t y; y = x; }", "{ x = 1; int32_t y; }", "{ int32_t x = 1; { int32_t y = x; } }", "{ if (c) { int32_t x; x = 1; } }", "{ for (int32_t i = 0; i < 2; i++) { uint8_t t = i; } }",
@@ -376,7 +380,8 @@ def fam_operands(tier):
     out = []
     toks = operand_tokens()
     for t in toks + LOOKALIKES + NUMBERS:
-        out.append(("operand-class", W(t)))
+        if tier == "thorough" or not re.match(r"^[A-Z]([de]|[xyz]|dd|xx|yy|vv|uu)N$", t):  # quick: .new spellings of the source letters only
+            out.append(("operand-class", W(t)))
     for t in KEYWORDISH:
         out.append(("keyword-lookalike", W(t)))
         out.append(("keyword-lookalike", "{ %s; }" % t))
@@ -460,7 +465,8 @@ def _comma_list(e):
 
 def r_kwid(n):
     """IDENTIFIER also matches keywords, and the derivation through IDENTIFIER wins:
-    sizeof(x) -> sub-routine `sizeof`; default: -> ordinary label; if (c); while (c); switch (c); -> call"""
+    sizeof(x) -> sub-routine `sizeof`; default: -> ordinary label; if (c); while (c); switch (c); -> call;
+    the statement `__NOP;` -> identifier __NOP (the nop rule is never chosen)"""
     k = n[0]
     if k == "sizeof_e" and n[1][0] == "paren":
         return ("call", ("id", "sizeof"), _comma_list(n[1]))
@@ -470,6 +476,16 @@ def r_kwid(n):
         return ("expr", ("call", ("id", "if"), _comma_list(n[1])))
     if k in ("while", "switch") and n[2] == ("empty",):
         return ("expr", ("call", ("id", k), _comma_list(n[1])))
+    if n == ("expr", ("id", "__NOP")):
+        return ("expr", ("plainid", "__NOP"))
+    return n
+
+
+def r_jumpelse(n):
+    """`jump: JUMP "(" expr ")"` has no ';' of its own (the ';' is a separate empty statement), so as the
+    unbraced then-arm of an if WITH else only sub_routine fits: `if (c) JUMP(x); else y;`"""
+    if n[0] == "if" and n[3] is not None and n[2][0] == "expr" and n[2][1][0] == "call" and n[2][1][1] == ("id", "JUMP") and len(n[2][1][2]) == 1:
+        return ("if", n[1], ("expr", ("call", ("plainid", "JUMP"), n[2][1][2])), n[3])
     return n
 
 
@@ -518,7 +534,7 @@ def make_r_pair(pairs):
     return r_pair
 
 
-AST_RULES = [(K_ARGLESS, lambda pairs: r_argless), (K_KWID, lambda pairs: r_kwid), (K_PAIR, make_r_pair)]
+AST_RULES = [(K_ARGLESS, lambda pairs: r_argless), (K_KWID, lambda pairs: r_kwid), (K_JUMPELSE, lambda pairs: r_jumpelse), (K_PAIR, make_r_pair)]
 
 UNARY_MARKERS = ["~", "!"]
 CAST_MARKERS = ["size16u_t", "size16s_t", "size1u_t", "size2s_t"]
@@ -601,29 +617,30 @@ def kwsplit_variants(text):
 
 
 def unary_amp_blanked(text):
-    """text with blanks put around every & that stands where C expects a prefix operator"""
-    toks = []
-    pos = 0
-    for m in cparse.TOKEN.finditer(text):
-        if m.end() == m.start():
-            break
-        toks.append(m)
+    """text with exactly one blank on each side of every & that stands where C expects a prefix operator
+    (more than one blank does not help: %ignore WS takes the whole run and leaves PTR no character)"""
     out = []
     last = 0
     prev = None
     changed = False
-    for m in toks:
+    for m in cparse.TOKEN.finditer(text):
+        if m.end() == m.start():
+            break
         s = m.group(0).strip()
         if s == "&":
             unary = prev is None or not (prev[0].isalnum() or prev[0] in "_\"'" or prev in (")", "]", "++", "--"))
             if unary:
                 i = m.end() - 1
-                out.append(text[last:i] + " & ")
-                last = i + 1
+                j = i + 1
+                while j < len(text) and text[j] in " \t\n":
+                    j += 1
+                out.append(text[last:i].rstrip() + " & ")
                 changed = True
+                last = j
         prev = s
     out.append(text[last:])
-    return "".join(out) if changed else None
+    t2 = "".join(out)
+    return t2 if changed and t2 != text else None
 
 
 def incsplit_variants(text):
@@ -935,8 +952,10 @@ def determinism(ctx, gen_texts, corpus_texts, cached_digest):
     # one parser object per child: forwards under every hash seed; under seed 0 the same object then parses
     # its list backwards (the whole corpus is parsed forwards only - its slice also backwards)
     slice_set = set(corpus_slice(corpus_texts))
-    bwd_texts = list(gen_texts) + [t for t in corpus_texts if t in slice_set]
-    fwd_only = [t for t in corpus_texts if t not in slice_set]
+    both = sorted(gen_texts)
+    bwd_texts = (both[::3] if quick else both) + [t for t in corpus_texts if t in slice_set]
+    bset = set(bwd_texts)
+    fwd_only = [t for t in all_texts if t not in bset]
     for hs in HASH_SEEDS:
         for i, sh in enumerate(shards(bwd_texts, nsh, ctx.seed)):
             jobs.append((("seed", hs, i), hs, "fwd+bwd" if hs == 0 else "fwd", sh))
@@ -968,16 +987,16 @@ def determinism(ctx, gen_texts, corpus_texts, cached_digest):
     if distinct_hash_values < len(HASH_SEEDS):
         raise core.HarnessError("the hash seeds did not take effect in the children (only %d distinct str hashes)" % distinct_hash_values)
     # in-process configurations (parent interpreter, its own hash seed)
-    comp = drive.get_compiler()
-    real = comp.parser.real if isinstance(comp.parser, drive.CachedParser) else comp.parser
-    _JOB["real_parser"] = real
     from rzilcompiler.Configuration import Conf, InputFile
 
     with open(Conf.get_path(InputFile.GRAMMAR, "Hexagon")) as f:
         _JOB["grammar"] = "".join(f.readlines())
-    slice_c = sorted(all_texts)[:: (8 if quick else 2)]
-    dig = core.pmap(_reused_compiler_parse, slice_c, seed=ctx.seed)
-    by_cfg["parent/Compiler.parser.parse"] = dict(zip(slice_c, dig))
+    real = real_compiler_parser(ctx)
+    if real is not None:
+        _JOB["real_parser"] = real
+        slice_c = sorted(all_texts)[:: (8 if quick else 2)]
+        dig = core.pmap(_reused_compiler_parse, slice_c, seed=ctx.seed)
+        by_cfg["parent/Compiler.parser.parse"] = dict(zip(slice_c, dig))
     slice_p = sorted(all_texts)[1 :: (8 if quick else 2)]
     chunks = [slice_p[i : i + 6] for i in range(0, len(slice_p), 6)]
     dig = core.pmap(_parse_single_chunk, chunks, seed=ctx.seed)
@@ -998,8 +1017,10 @@ def determinism(ctx, gen_texts, corpus_texts, cached_digest):
         if name == base_name:
             continue
         for t, g in d.items():
+            if t not in base:
+                continue  # the parse cache also holds the corpus parts outside this tier's slice
             ncmp += 1
-            if base.get(t) != g:
+            if base[t] != g:
                 bad.setdefault(t, []).append((name, g))
     for t, lst in sorted(bad.items()):
         ctx.report(
@@ -1021,27 +1042,49 @@ def determinism(ctx, gen_texts, corpus_texts, cached_digest):
 # ---------------------------------------------------------------------------------------
 
 
+def real_compiler_parser(ctx):
+    """The parser object of a real Compiler instance (it has already parsed the 13 sub-routine bodies).
+    A Compiler that cannot be constructed is reported: with the pinned grammar it can, so the cause is a
+    grammar under which the sub-routine bodies no longer parse to what the transformer expects."""
+    try:
+        comp = drive.get_compiler()
+    except Exception as e:  # noqa
+        ctx.report({"kind": "compiler-construction", "text": "", "exception": "%s: %s" % (type(e).__name__, str(e)[:500])}, None, what="Compiler() cannot be constructed with this grammar: %s: %s" % (type(e).__name__, str(e)[:200]))
+        return None
+    return comp.parser.real if isinstance(comp.parser, drive.CachedParser) else comp.parser
+
+
+def parsed_corpus(seed):
+    """corpus.parsed_corpus() with a parser that does not need a whole Compiler (same cache bucket)"""
+    beh = drive.load_corpus()
+    pc = drive.ParseCache("corpus", parser=fresh_parser())
+    pc.ensure([p for parts in beh.values() for p in parts], seed=seed)
+    pc.save()
+    return beh, pc
+
+
 def corpus_slice(texts):
-    """the fixed slice of the corpus used by the quick tier: every 40th distinct part in sorted order"""
+    """the fixed slice of the corpus used by the quick tier: every 64th distinct part in sorted order"""
     ts = sorted(set(texts))
-    return ts[::40]
+    return ts[::64]
 
 
 def run(ctx):
-    from vf import corpus
-
     sp = space(ctx.tier)
     gen_texts = [t for _, t in sp]
     ctx.log("generated strings: %d" % len(sp))
-    cache = drive.ParseCache("c17-" + ctx.tier)
+    cache = drive.ParseCache("c17-" + ctx.tier, parser=fresh_parser())
     cache.ensure(gen_texts, seed=ctx.seed)
     cache.save()
     ctx.log("generated strings parsed (%d parsed now)" % cache.n_parsed_now)
-    beh, pc = corpus.parsed_corpus(ctx.seed)
+    beh, pc = parsed_corpus(ctx.seed)
     corpus_items = []
     seen = set(gen_texts)
+    n_parts = n_parts_accepted = 0
     for name in sorted(beh):
         for i, p in enumerate(beh[name]):
+            n_parts += 1
+            n_parts_accepted += pc.get(p)[0] == "ok"
             if p not in seen:
                 seen.add(p)
                 corpus_items.append(("corpus:%s[%d]" % (name, i), p))
@@ -1073,7 +1116,7 @@ def run(ctx):
         if v["status"] == "equal":
             if v["nontrivial"]:
                 distinct.add(v["digest"])
-            if len(ctx.samples) < 6 and (fam in ("bin-triple", "dangling-else", "operand-mix", "nest") or f0 == "corpus") and not any(s["family"] == f0 for s in ctx.samples):
+            if len(ctx.samples) < 6 and len(text) > 40 and (fam in ("bin-triple", "dangling-else", "operand-mix", "nest") or f0 == "corpus") and not any(s["family"] == f0 for s in ctx.samples):
                 ctx.sample({"family": f0, "text": text[:300], "canonical": short(N.ref_canon(text), 500)})
         elif v["status"] == "mismatch":
             case = {"kind": "structure", "family": fam, "text": text, "why": v["why"], "lark": short(v.get("lark_c") if v.get("lark_c") is not None else v.get("lark"), 1500), "reference": short(v["ref_c"], 1500)}
@@ -1092,7 +1135,9 @@ def run(ctx):
         structure_equal=st["equal"],
         structure_mismatch=st["mismatch"],
         rejected_by_both=st["both-reject"],
-        corpus_parts_compared=n_corpus_cmp,
+        corpus_distinct_texts_compared=n_corpus_cmp,
+        corpus_parts=n_parts,
+        corpus_parts_accepted_by_the_real_parser=n_parts_accepted,
         generated_strings=len(sp),
         strings_per_family=dict(sorted(fam_count.items())),
         distinct_nontrivial=len(distinct),
@@ -1129,7 +1174,10 @@ def replay(ctx, path):
             digs["%s/%s/fwd" % (k[0], k[1])] = r["fwd"][0]
             if "bwd" in r:
                 digs["%s/%s/bwd" % (k[0], k[1])] = r["bwd"][0]
-        digs["parent/Compiler.parser"] = _digest_with(drive.get_compiler().parser, text)
+        try:
+            digs["parent/Compiler.parser"] = _digest_with(drive.get_compiler().parser, text)
+        except Exception as e:  # noqa
+            digs["parent/Compiler.parser"] = "Compiler() failed: %s" % type(e).__name__
         from rzilcompiler.Configuration import Conf, InputFile
 
         with open(Conf.get_path(InputFile.GRAMMAR, "Hexagon")) as f:
@@ -1141,7 +1189,16 @@ def replay(ctx, path):
             return 1
         print("replay: all %d configurations give digest %s" % (len(digs), list(digs.values())[0]))
         return 0
-    parser = drive.get_compiler().parser
+    if case.get("kind") == "compiler-construction":
+        try:
+            drive.get_compiler()
+        except Exception as e:  # noqa
+            print("VIOLATION property=%s replay=%s" % (ctx.pid, path))
+            print("  Compiler() cannot be constructed: %s: %s" % (type(e).__name__, str(e)[:300]))
+            return 1
+        print("replay: the Compiler is constructed")
+        return 0
+    parser = fresh_parser()
 
     def parse_fn(t):
         try:
